@@ -422,8 +422,10 @@ def nanvar(
     sum_sq = reduce(reduce_func_name="sum_square", **kwargs)
     sum = reduce(reduce_func_name="sum", **kwargs)
     d = n - ddof
-    if d == 0 or n == 0:
-        return _null_value_for_numpy_type(arr.dtype)
+    if d <= 0 or n == 0:
+        # a variance is a float whatever the input dtype (the integer null sentinel would
+        # be taken for a huge negative variance, whose square root is complex)
+        return np.nan
     return (sum_sq - sum**2 / n) / d
 
 
